@@ -890,6 +890,7 @@ static void t_gen(prng_t *r, int mode, plan_t *p)
 {
     p->cfg[CF_FAR] = FAR_OF_INDEX();      /* element blocks 2^32 or 3 * 2^31 bytes apart in one run in seven each */
     p->cfg[CF_DECL] = DECL_OF_INDEX();    /* one run in five starts from the initializer macros */
+    p->cfg[CF_REUSE] = REUSE_OF_INDEX();  /* one run in six: the allocator hands a freed block out again at once */
     int nops, i, longrun, small, stream;
     unsigned w_clear = mode == 15 ? 10 : 1;
     if (mode == 120) {
